@@ -517,3 +517,16 @@ def ddmin(items, fails):
                 break
             n = min(len(items), n * 2)
     return items
+
+
+def check_charclasses(r, strings):
+    """every character that occurs in the generated strings is classified by the real code (char::is_alphabetic / is_numeric /
+    is_ascii_uppercase, through the harness) and by the driver's hard-wired class table (`drvCC`): the model is instantiated
+    with that table, so a character it classifies differently means the model reads the string differently from Rust"""
+    chars = sorted(set(ch for s in strings for ch in s))
+    cl = [f"classify\t{ord(c)}" for c in chars]
+    a, b = r.impl("spec", cl), r.model("spec", cl)
+    bad = [(hex(ord(c)), x, y) for c, x, y in zip(chars, a, b) if x.lower() != y.lower()]
+    r.coverage["character_classes_cross_checked"] = len(chars)
+    if bad:
+        raise Broken(f"driver character classes disagree with Rust's on {len(bad)} generated characters, e.g. {bad[:80]}")
